@@ -42,7 +42,9 @@ SomeDflt == PlainDflt \cup {[t \in {1, 2} |-> IF t = 1 THEN "none" ELSE "untouch
 \* The file holds the VALUES in each case.
 ArrForms == {"contiguous", "strided", "cast"}
 OneArr == {"contiguous"}
-Selectors == {"same", "none", "shift", "firstonly"}
+\* "extra": the second trajectory carries, in ts1, one species more than the list its file was created with.  Such a
+\* trajectory does not fit the file: it is refused (and then nothing of it is stored), never stored in part.
+Selectors == {"same", "none", "shift", "firstonly", "extra"}
 \* "split": the fields ts2 and tsm form a second field set kept in an associated
 \* file written together with the base file (both files get the species list of
 \* the whole trajectory); "split_assoc": that associated file is produced later
@@ -58,12 +60,16 @@ TwoLayouts == {"single", "split_assoc"}
 
 Next1(f) == CASE f = "ts1" -> "ts2" [] f = "ts2" -> "tsp" [] f = "tsp" -> "tsm" [] f = "tsm" -> "ts1"
 
+\* a species the file of ts1 has no position for (none if the file already lists the whole universe)
+ExtraOf(c) == LET rest == U \ (UNION {c.s[f] : f \in SFields}) IN IF rest = {} THEN {} ELSE {CHOOSE x \in rest : \A y \in rest : x <= y}
+Fits(c) == c.sel # "extra" \/ ExtraOf(c) = {}
 \* species sets of trajectory t under a case
 Sets(c, t) == IF t = 1 THEN c.s
               ELSE CASE c.sel = "same" -> c.s
                      [] c.sel = "none" -> [f \in SFields |-> {}]
                      [] c.sel = "shift" -> [f \in SFields |-> c.s[Next1(f)]]
                      [] c.sel = "firstonly" -> [f \in SFields |-> IF f = "ts1" THEN c.s[f] ELSE {}]
+                     [] c.sel = "extra" -> [f \in SFields |-> IF f = "ts1" THEN c.s[f] \cup ExtraOf(c) ELSE c.s[f]]
 
 FileOf(c, f) == IF c.layout \in {"split", "split_assoc"} /\ f \in {"ts2", "tsm"} THEN 2 ELSE 1
 FileSet(c, k) == IF c.layout = "split_assoc" THEN UNION {c.s[f] : f \in {g \in SFields : FileOf(c, g) = k}}
@@ -83,7 +89,7 @@ VARIABLES case, phase, file, back, err,
 cvars == <<case, phase, file, back, err, sfile, sback>>
 
 CaseSpace == {c \in [s : [SFields -> SUBSET U], sel : Selectors, unset : UnsetSpace, layout : LayoutSpace, dflt : DfltSpace, arr : ArrSpace] :
-                 c.layout \in {"split", "split_assoc"} => c.sel # "shift"}    \* (a shifted second trajectory would not fit the two species lists)
+                 (c.layout \in {"split", "split_assoc"} => c.sel # "shift") /\ (c.sel = "extra" => c.layout \in {"single", "evicted"})}    \* (a shifted second trajectory would not fit the two species lists)
 
 CInit == /\ case \in CaseSpace
          /\ phase = "start" /\ file = <<>> /\ back = <<>> /\ err = "none"
@@ -97,7 +103,8 @@ HeldBy(c, f, t) ==    \* what the trajectory holds when it is added
   ELSE CASE c.dflt[t] = "set" -> <<f, t>> [] c.dflt[t] = "none" -> Unset [] c.dflt[t] = "untouched" -> <<f, 0>>
 
 Cells(c) == {<<f, t, sp>> : f \in SFields, t \in Trajs, sp \in U}
-Written(c) == {x \in Cells(c) : x[3] \in Sets(c, x[2])[x[1]]}
+Stored(c, t) == t = 1 \/ Fits(c)        \* the second trajectory is stored only if it fits the file
+Written(c) == {x \in Cells(c) : Stored(c, x[2]) /\ x[3] \in Sets(c, x[2])[x[1]]}
 
 \* writing: one cell per present species; a position beyond the species
 \* dimension is an error ("NetCDF: Index exceeds dimension bound")
@@ -131,7 +138,9 @@ Read ==
 CNext == Write \/ Read
 CSpec == CInit /\ [][CNext]_cvars
 
-Original(c) == [ft \in SFields \X Trajs |-> {<<sp, Val(ft[1], ft[2], sp)>> : sp \in Sets(c, ft[2])[ft[1]]}]
+Original(c) == [ft \in SFields \X Trajs |-> IF Stored(c, ft[2]) THEN {<<sp, Val(ft[1], ft[2], sp)>> : sp \in Sets(c, ft[2])[ft[1]]} ELSE {}]
+\* nothing of a refused trajectory is in the file
+AllOrNothing == phase \in {"written", "read"} => \A k \in DOMAIN file : Stored(case, k[2])
 
 \* C03: what was stored is what is read back, species exact
 NoWriteError == err = "none"
@@ -141,5 +150,5 @@ RoundTrip == phase = "read" => back = Original(case)
 ScalarRoundTrip == phase = "read" =>
    \A ft \in (Opt \cup OptD) \X Trajs : sback[ft] = HeldBy(case, ft[1], ft[2])
 SpeciesExact == phase = "read" =>
-   \A ft \in SFields \X Trajs : {pr[1] : pr \in back[ft]} = Sets(case, ft[2])[ft[1]]
+   \A ft \in SFields \X Trajs : {pr[1] : pr \in back[ft]} = (IF Stored(case, ft[2]) THEN Sets(case, ft[2])[ft[1]] ELSE {})
 =============================================================================
